@@ -45,10 +45,6 @@ func runC02(c *Ctx) {
 		c.Check("C02-R1", "insertMinedTx-updates-balance", ins.Pos(), bad == nil, "a success path of insertMinedTx skips updateMinedBalance")
 	}
 	// R2
-	// the conflict index must know every input of every unconfirmed transaction, wallet credit or not: removeDoubleSpends
-	// finds the transactions a confirmation invalidates only through it
-	checkPerIteration(c, "C02-R1", wtxFn(c, "C02-R1", "insertMemPoolTx"), "TxIn", "putRawUnminedInput", 1,
-		"an input of a newly seen unconfirmed transaction is not registered in the unconfirmed-spender index: when a conflicting transaction confirms, this one (and its descendants) survive")
 	checkConflictRemoval(c, "C02-R2")
 	// R3
 	rb := wtxFn(c, "C02-R3", "rollback")
@@ -117,6 +113,7 @@ func runC02(c *Ctx) {
 	}
 	runLoopCompleteness(c, "C02-R3", []string{"rollback", "removeDoubleSpends", "removeConflict", "deleteUnminedTx", "updateMinedBalance"})
 	checkLoopCarriedStructs(c, "C02-R3", []string{"rollback", "updateMinedBalance"})
+	checkElementIndexFromOwnLoop(c, "C02-R3", []string{"rollback", "updateMinedBalance", "insertMinedTx", "addCredit"})
 
 	// R4: disconnectBlock reaches Rollback
 	db := p.Func("wallet", "Wallet", "disconnectBlock")
